@@ -2,8 +2,8 @@ package piece
 
 import (
 	"github.com/cenkalti/rain/v2/internal/allocator"
-	"github.com/cenkalti/rain/v2/internal/metainfo"
 	"github.com/cenkalti/rain/v2/internal/filesection"
+	"github.com/cenkalti/rain/v2/internal/metainfo"
 	vrt "github.com/cenkalti/rain/v2/internal/zzvrt"
 )
 
